@@ -260,7 +260,7 @@ def stats(ctx: Ctx) -> None:
         ctx.ob(prop, None, ok, "FinalizedPlan.num_tasks returns the accumulated total", sel="stats:property")
 
 
-@rule("COUNT-1", props=["C13"], floor=4)
+@rule("COUNT-1", props=["C13", "C11"], floor=4, default=["C13"])
 def count(ctx: Ctx) -> None:
     """num_tasks and the task iterable of every PrimitiveOperation have a common origin"""
     repo = ctx.repo
@@ -305,6 +305,29 @@ def count(ctx: Ctx) -> None:
                     if isinstance(el, ast.Call) and unparse(el) == f"range(len({unparse(g.target)}))" and not g.ifs and is_self_attr(g.iter) and len(a.value.generators) == 1:
                         ok = True
     ctx.ob(ck, None, ok, "ChunkKeys iterates the full product of range(len(c)) over its chunks", sel="count:chunkkeys")
+    # the primitive stores the task iterable as it was given (or its own ChunkKeys): no
+    # one-shot wrapper around it
+    pg = repo.get(f"{A.PBW}.general_blockwise")
+    pfl_, pcfg_ = flow_of(repo, pg), cfg_of(pg)
+    for cp in repo.calls_to(pg, f"{A.RT_TYPES}.CubedPipeline"):
+        mp = cp.args[2] if len(cp.args) > 2 else kwarg(cp, "mappable")
+        vals = [mp]
+        if isinstance(mp, ast.Name) and pcfg_.has(cp):
+            vals = [s_.value for s_ in pfl_.rdefs(mp.id, pcfg_.node_of(cp)) if s_.value is not None]
+        bad = None
+        for v_ in vals:
+            for x_ in [v_] + ([v_.body, v_.orelse] if isinstance(v_, ast.IfExp) else []):
+                if isinstance(x_, ast.GeneratorExp) or (isinstance(x_, ast.Call) and isinstance(x_.func, ast.Name) and x_.func.id in ("map", "filter", "zip", "iter", "enumerate", "reversed")) or (isinstance(x_, ast.Call) and (attr_chain(x_.func) or "").startswith("itertools.")):
+                    bad = x_
+        ctx.ob(
+            pg,
+            cp,
+            bad is None,
+            "the pipeline's task iterable is the caller's output_blocks or ChunkKeys(...), both re-iterable"
+            + ("" if bad is None else f" — `{unparse(bad, 50)}` is a one-shot iterator stored in a plan object that is executed (and fused, resumed, batched) more than once"),
+            sel="count:reiterable:primitive",
+            props=["C13", "C11"],
+        )
     # a call site that passes output_blocks= must pass num_tasks= (and vice versa)
     gb = repo.get(f"{A.OPS}.general_blockwise")
     for d, c, ts in repo.all_call_sites():
@@ -337,6 +360,7 @@ def count(ctx: Ctx) -> None:
                 "an explicit task iterable (output_blocks=) can be walked more than once"
                 + ("" if one_shot is None else f" — `{unparse(one_shot, 50)}` is a one-shot iterator: the second execution of the same plan (or any earlier walk) finds it empty while num_tasks still advertises the full count"),
                 sel="count:reiterable",
+                props=["C13", "C11"],
             )
             t_ob = fl.taint(ob_) - {"self"}
             t_nt = fl.taint(nt_) - {"self"}
@@ -522,7 +546,7 @@ def barrier(ctx: Ctx) -> None:
     ctx.ob(p2s, None, ok, "pipeline_to_stream maps the pipeline's function over the pipeline's own mappable with its own config", sel="p2s")
 
 
-@rule("BARRIER-SRC-1", props=["C07"], floor=5)
+@rule("BARRIER-SRC-1", props=["C07", "C09", "C10"], floor=5, default=["C07"])
 def barrier_src(ctx: Ctx) -> None:
     """executors obtain operations only from visit_nodes / visit_node_generations, which
     traverse the whole dag in topological order and filter only through skip_node"""
@@ -601,7 +625,7 @@ def barrier_src(ctx: Ctx) -> None:
         elif isinstance(v, ast.Call) and isinstance(v.func, ast.Attribute) and v.func.attr == "get" and v.args and isinstance(v.args[0], ast.Constant) and v.args[0].value == "computed":
             dv = v.args[1] if len(v.args) > 1 else ast.Constant(None)
             ok = isinstance(dv, ast.Constant) and not dv.value
-        ctx.ob(sk, r.stmt, ok, f"skip_node returns true only for 'no pipeline' or the `computed` flag with a falsy default (returns `{why}`)", sel="skip:return", props=["C07", "C09"])
+        ctx.ob(sk, r.stmt, ok, f"skip_node returns true only for 'no pipeline' or the `computed` flag with a falsy default (returns `{why}`)", sel="skip:return", props=["C07", "C09", "C10"])
 
 
 @rule("CREATE-FIRST-1", props=["C07"], floor=3)
